@@ -15,6 +15,7 @@ import (
 	"fmt"
 	"os"
 	"path/filepath"
+	"strings"
 
 	"github.com/johnkerl/miller/v6/pkg/cli"
 	"github.com/johnkerl/miller/v6/pkg/mlrval"
@@ -50,8 +51,10 @@ func cmdLruOps(args []string, in *bufio.Scanner, out *bufio.Writer) {
 	}
 }
 
-// countOpenFiles: number of entries of /proc/self/fd (-1 if unreadable)
-func countOpenFiles() int {
+// countOpenFiles: number of descriptors of this process that refer to files under dir (/proc/self/fd links); -1 if unreadable.
+// Only the request's own scratch directory is counted, so descriptors of earlier requests (pipes still closing), of the
+// runtime or of the driver itself do not matter.
+func countOpenFiles(dir string) int {
 	f, err := os.Open("/proc/self/fd")
 	if err != nil {
 		return -1
@@ -61,15 +64,22 @@ func countOpenFiles() int {
 	if err != nil {
 		return -1
 	}
-	return len(names) - 1 // the directory handle itself
+	n := 0
+	prefix := filepath.Clean(dir) + "/"
+	for _, name := range names {
+		target, err := os.Readlink("/proc/self/fd/" + name)
+		if err == nil && strings.HasPrefix(target, prefix) {
+			n++
+		}
+	}
+	return n
 }
 
 // returns the errors, and the number of files the manager holds open: the maximum seen after any op and the number
 // just before Close() (both relative to the count before the manager was created)
 func runLruOps(req *lruRequest) ([]string, int, int) {
 	errs := []string{}
-	countOpenFiles() // warm-up: the first os.Open may create the runtime poller's descriptors
-	base := countOpenFiles()
+	base := 0
 	openMax := 0
 	wopts := cli.DefaultWriterOptions()
 	wopts.OutputFileFormat = req.Fmt
@@ -143,11 +153,11 @@ func runLruOps(req *lruRequest) ([]string, int, int) {
 				break
 			}
 		}
-		if n := countOpenFiles() - base; n > openMax {
+		if n := countOpenFiles(req.Dir) - base; n > openMax {
 			openMax = n
 		}
 	}
-	openEnd := countOpenFiles() - base
+	openEnd := countOpenFiles(req.Dir) - base
 	for _, err := range mgr.Close() {
 		errs = append(errs, "close: "+err.Error())
 	}
